@@ -317,6 +317,12 @@ def task_inv(a, env):
                     r.ev += 1
                     if bad:
                         r.viol("C18:inv:near-n/phi", ME + ":replay_inv", {"x": hex(x), "n": hex(n)}, bad[0], bad[1])
+            from .C14 import quotient_size_inputs
+            for x in quotient_size_inputs(n):  # partial quotients of every size (dense divisors)
+                bad = inv_case(x, n)
+                r.ev += 1
+                if bad:
+                    r.viol("C18:inv:large-partial-quotient", ME + ":replay_inv", {"x": hex(x), "n": hex(n)}, bad[0], bad[1])
     for which in (0, 1):
         for k in range(0, a["w"], max(1, a["w"] // 40)):
             for lbl, exp, got, kk in phi_add_case(k, which):
